@@ -153,7 +153,7 @@ def run_tlc(module, cfg, workdir, *, workers=None, env=None, simulate=None, dept
     module = os.path.basename(modpath)[:-4]
     meta = os.path.join(workdir, f"meta-{module}-{os.getpid()}-{int(t0*1000)%100000}")
     cfgpath = cfg if os.path.isabs(cfg) else os.path.join(SPEC, cfg)
-    jopts = [f"-Xmx{heap}", "-XX:+UseParallelGC", f"-DTLA-Library={SPEC}"]
+    jopts = [f"-Xmx{heap}", "-Xss64m", "-XX:+UseParallelGC", f"-DTLA-Library={SPEC}"]
     if dfs:
         jopts.append("-Dtlc2.tool.queue.IStateQueue=StateDeque")
     cmd = ["java", *jopts, "-cp", TLA_CP, "tlc2.TLC", "-metadir", meta, "-noGenerateSpecTE",
